@@ -175,32 +175,41 @@ class Dense:
             ts.append(Term(t.coef, atoms, t.out))     # scalar coefficients are treated as real (stated assumption)
         return Dense(self.space, ts)
 
-    def add(self, o: "Dense") -> "Dense":
-        """Elementwise sum: output axes are identified position-wise (sizes -> obligations)."""
+    def add(self, o: "Dense", _swapped=False) -> "Dense":
+        """Elementwise sum: output axes are identified position-wise (sizes -> obligations).  A *literal* unit axis of one
+        summand facing a sized axis of the other is broadcast (torch semantics for constants built by the code)."""
         if not self.terms:
             return o
         if not o.terms:
             return self
+        sp = self.space
         a, b = self, o.fresh()
         if a.ndim() != b.ndim():
             raise TypeViolation(f"elementwise sum of tensors with {a.ndim()} and {b.ndim()} axes")
         ref = a.terms[0].out
+
+        def sized(ax):
+            return [w for w in ax if not sp.is_unit(w)]
+        need_swap = any(not sized(ra) and sized(oa) for ra, oa in zip(ref, b.terms[0].out))
+        if need_swap:
+            if _swapped or any(sized(ra) and not sized(oa) for ra, oa in zip(ref, b.terms[0].out)):
+                raise Unmodelled("elementwise sum with unit axes on both sides")
+            return o.add(self, _swapped=True)
         new_terms = list(a.terms)
         for t in b.terms:
-            out = _align_axes(self.space, ref, t.out, "elementwise +")
+            out = _align_axes(sp, ref, t.out, "elementwise +")
             atoms = list(t.atoms)
             fixed = []
             for ax in out:
                 if isinstance(ax, tuple) and len(ax) == 2 and ax[0] == "BCAST":
-                    # a literal unit axis of the second summand is broadcast along the first summand's axis
-                    w = self.space.new(self.space.sz(ax[1][0]), "bcast")
-                    self.space.unify(w, ax[1][0], "broadcast of a literal unit axis")
+                    w = sp.new(sp.sz(ax[1][0]), "bcast")
+                    sp.unify(w, ax[1][0], "broadcast of a literal unit axis")
                     atoms.append(Atom("1", False, ((w,),)))
                     fixed.append(ax[1])
                 else:
                     fixed.append(ax)
             new_terms.append(Term(t.coef, atoms, fixed))
-        return Dense(self.space, new_terms)
+        return Dense(sp, new_terms)
 
     def permute(self, perm) -> "Dense":
         n = self.ndim()
@@ -226,6 +235,10 @@ class Dense:
 
     def show(self):
         return self.canon()
+
+
+def _raise_unmodelled():
+    raise Unmodelled("elementwise sum with unit axes on both sides")
 
 
 def _coef_add(a: Coef, b: Coef):
@@ -286,7 +299,17 @@ def _simplify_term(sp: Space, t: Term):
                     rep = (x, y)
                 elif y not in out_w:
                     rep = (y, x)
-                if rep is not None and (rep[0] in others or rep[1] in others or True):
+                if rep is None and (x in others or y in others):
+                    # both wires open: f(x) δ(x,y) = f(y) δ(x,y); other atoms use the wire that comes first in the output
+                    order = [w for ax in out for w in ax]
+                    keep, drop = (x, y) if order.index(x) < order.index(y) else (y, x)
+                    if drop in others:
+                        for j, b in enumerate(atoms):
+                            if j != i:
+                                atoms[j] = Atom(b.name, b.conj, tuple(tuple(keep if w == drop else w for w in ax) for ax in b.axes))
+                        changed = True
+                        break
+                if rep is not None:
                     old, new = rep
                     atoms.pop(i)
                     atoms = [Atom(b.name, b.conj, tuple(tuple(new if w == old else w for w in ax) for ax in b.axes)) for b in atoms]
@@ -326,7 +349,10 @@ def _canon_term(sp: Space, t: Term) -> str:
         s_out = "[" + ",".join("(" + "*".join(f"w{L(w)}:{sp.sz(w)!r}" for w in ax) + ")" for ax in out) + "]"
         s_atoms = []
         for a in order:
-            s_atoms.append(("~" if a.conj else "") + a.name + "(" + ",".join("*".join(f"w{L(w)}" for w in ax) for ax in a.axes) + ")")
+            parts = ["*".join(f"w{L(w)}" for w in ax) for ax in a.axes]
+            if a.name == "δ":
+                parts = sorted(parts)      # the identity is symmetric
+            s_atoms.append(("~" if a.conj else "") + a.name + "(" + ",".join(parts) + ")")
         # wires that occur in one atom only and not in out are summed: visible through the labels
         s = s_out + " " + " ".join(s_atoms)
         if best is None or s < best:
@@ -458,7 +484,12 @@ def tensordot(sp: Space, a: Dense, b: Dense, dims_a, dims_b) -> Dense:
     for x, y in zip(dims_a, dims_b):
         lb[y] = la[x]
     out = [l for i, l in enumerate(la) if i not in dims_a] + [l for j, l in enumerate(lb) if j not in dims_b]
-    return einsum(sp, "".join(la) + "," + "".join(lb) + "->" + "".join(out), [a, b])
+    n0 = len(sp.obligations)
+    res = einsum(sp, "".join(la) + "," + "".join(lb) + "->" + "".join(out), [a, b])
+    for ob in sp.obligations[n0:]:
+        ob["ctx"] = "tensordot (no broadcasting: torch rejects unequal sizes): " + ob["ctx"]
+        ob["strict"] = True
+    return res
 
 
 # --------------------------------------------------------------------------- reshape
